@@ -21,8 +21,42 @@ def universe():
     defs = sorted('json/definitions/' + os.path.basename(p) for p in glob.glob(os.path.join(repo, 'json', 'definitions', '*.json')))
     samples = sorted('sample-jsons/' + os.path.basename(p) for p in glob.glob(os.path.join(repo, 'sample-jsons', '*.json')))
     sv = [('sv', s, v) for s in schemas + defs for v in VALIDATORS]
-    va = [('va', j, s) for j in samples for s in schemas]
+    # every bundled schema - the definition files too - can be the schema a document is validated against
+    va = [('va', j, s) for j in samples for s in schemas] + [('va', j, s) for j in samples[::3] for s in defs]
     return sv, va, schemas, samples
+
+
+def ref_pairs():
+    """(A, B): schema file A refers (directly or through other files) to schema file B by a file $ref - read from the
+    files themselves.  Loading A makes the implementation load B: a history in which B is used after A (or A after B) is
+    where anything remembered about a *file* (rather than about a call) would show."""
+    import re
+    repo = common.REPO
+    files = sorted('json/' + os.path.basename(p) for p in glob.glob(os.path.join(repo, 'json', '*.json'))) + \
+        sorted('json/definitions/' + os.path.basename(p) for p in glob.glob(os.path.join(repo, 'json', 'definitions', '*.json')))
+    direct = {}
+    for f in files:
+        try:
+            txt = open(os.path.join(repo, f)).read()
+        except OSError:
+            continue
+        tg = set()
+        for m in re.finditer(r'"\$ref"\s*:\s*"(?:file:///)?([^"#]+)#?[^"]*"', txt):
+            t = m.group(1)
+            if t in files and t != f:
+                tg.add(t)
+        direct[f] = tg
+    closure = {f: set(t) for f, t in direct.items()}
+    changed = True
+    while changed:
+        changed = False
+        for f in closure:
+            for t in list(closure[f]):
+                new = closure.get(t, set()) - closure[f] - {f}
+                if new:
+                    closure[f] |= new
+                    changed = True
+    return sorted((a, b) for a, ts in closure.items() for b in ts)
 
 
 def key_id(call):
@@ -174,7 +208,7 @@ def run(tier):
         F = lambda c, ef: fresh[(key_id(c), c[0], ef)]
         cls = {}
         for c in sv + va:
-            cls.setdefault((c[0], 'v' if F(c, False) == 'True' else 'i'), []).append(c)
+            cls.setdefault((c[0], 'v' if F(c, False) == 'True' else 'i' if F(c, False) == 'False' else 'b'), []).append(c)
         for k in (('sv', 'v'), ('sv', 'i'), ('va', 'v'), ('va', 'i')):
             if len(cls.get(k, [])) < 3:
                 raise MachineryError('vacuity guard: fewer than 3 concrete keys of class %s' % (k,))
@@ -202,6 +236,8 @@ def run(tier):
         for hi, h in enumerate(hists):
             for inst in range(ninst):
                 calls = []
+                if any((a['fn'], a['k'][0]) not in cls for a in h):
+                    continue            # (no concrete key of that class among the bundled files)
                 for j, a in enumerate(h):
                     lst = cls[(a['fn'], a['k'][0])]
                     idx = (hi * 7 + inst * 13 + int(a['k'][1]) * 5) % len(lst)
@@ -232,6 +268,23 @@ def run(tier):
                 for ef2 in (False, True):
                     histories.append([(a, ef1), (b, ef2)])
                     histories.append([(a, ef1), (b, ef2), (a, ef2)])
+        # schema files that refer to each other: a call that loads file B as a side effect of using file A, then a call
+        # about B itself (as the schema of a document, or checked as a schema), and the other way round
+        rp = ref_pairs()
+        docs_for = {}
+        for c in va:
+            docs_for.setdefault(c[2], []).append(c)
+        n_refpairs = 0
+        for a_file, b_file in rp:
+            As = docs_for.get(a_file, [])[:1] + [c for c in docs_for.get(a_file, []) if os.path.basename(c[1]).startswith(os.path.basename(a_file)[:-5])][:1]
+            Bs = docs_for.get(b_file, [])[:2] + [('sv', b_file, 'Draft4Validator'), ('sv', b_file, 'Draft7Validator')]
+            for x in As[:2] + [('sv', a_file, 'Draft4Validator')]:
+                for y in Bs:
+                    for e1 in ((False, True) if not quick else (False,)):
+                        for e2 in (False, True):
+                            histories.append([(x, e1), (y, e2)])
+                            histories.append([(y, e2), (x, e1), (y, not e2)])
+                            n_refpairs += 2
         n_related = len(related)
         # the same file under a different spelling of its path
         for c in (sv + va)[::5 if quick else 1]:
@@ -273,7 +326,7 @@ def run(tier):
             for (c, ef), (o, svk, vak) in zip(calls, res):
                 obs_ = svk is not None
                 observable = observable and obs_
-                recs.append({'fn': c[0], 'k': key_id(c), 'ef': ef, 'out': o, 'fresh': F(c, ef), 'obs': obs_,
+                recs.append({'fn': c[0], 'k': key_id(c), 'ef': ef, 'out': o, 'fresh': F(c, ef), 'fresh0': F(c, False), 'obs': obs_,
                              'svk': svk or [], 'vak': vak or []})
                 if obs_:
                     if len(svk) == 20 or len(vak) == 20:
@@ -285,7 +338,7 @@ def run(tier):
                     prev = (svk, vak)
             traces.append({'calls': recs})
         rep.count('evaluations', sum(len(h) for h in histories))
-        rep.setcov('histories', dict(from_tlc=len(hists) * ninst, related_key_pairs=n_related, long_random=nlong + 4, steps_at_cache_limit=evictions,
+        rep.setcov('histories', dict(from_tlc=len(hists) * ninst, related_key_pairs=n_related, file_reference_histories=n_refpairs, long_random=nlong + 4, steps_at_cache_limit=evictions,
                                      caches_observable=observable, steps_after_overflow=overflowed, largest_cache_seen=maxlen_seen,
                                      repository_suite_history=len(suite_hist)))
         if observable and not overflowed and maxlen_seen <= 20:
